@@ -5,7 +5,9 @@
 (*                  on a fresh twin that never ran q (all ordered pairs (q, b)),  *)
 (*   Repeatable     q called twice returns equal values,                          *)
 (*   InputsUntouched  caller-owned arrays and shared data objects have the same    *)
-(*                  content digest before and after.                               *)
+(*                  content digest before and after,                               *)
+(*   NoStaleHit     every cache hit (guarded lookup hook, shadow re-evaluation)     *)
+(*                  returned what the method computes on the current state.         *)
 (* Random queries are observed through a deterministic functional of their result  *)
 (* (sorted values, spectral amplitudes), as stated in the label after "~".         *)
 EXTENDS Integers, Sequences, FiniteSets, TLC, Fx, Json, IOUtils
@@ -28,6 +30,9 @@ Verdict(e) ==
   ELSE LET bad == {"Pure|" \o e.q \o "->" \o nm : nm \in Interfered(e)}
                   \cup (IF ~SameSeq(e.rep[1], e.rep[2]) THEN {"Repeatable|" \o e.q} ELSE {})
                   \cup {"InputsUntouched|" \o e.q \o "->" \o nm : nm \in Touched(e)}
+                  \* every cache hit during the case returned what the undecorated method computes now
+                  \* (a memoised array edited in place by another query shows up here, at its owner)
+                  \cup {"NoStaleHit|" \o e.stale[k] : k \in 1..Len(e.stale)}
        IN IF bad = {} THEN <<"ACCEPT", "", "", Tags(e)>> ELSE <<"REJECT", "Multi", JoinSet(bad), Tags(e)>>
 Verdicts == TLCEval([k \in 1..Len(Trace) |-> Verdict(Trace[k])])
 Init == i = 1
